@@ -156,7 +156,7 @@ def _run_text(case, ctx, text):
     # (observed at apply_postprocessing_rules, snapshot taken before the call) are, in order, exactly the values streamed with
     # it switched off, with the same productions and scores; and neither the argument nor an earlier candidate changes later
     # (anchoring in place would feed an already dated value back into the search, which is still running)
-    if not probs and not mon.missing:
+    if not probs and "apply_postprocessing_rules" not in mon.missing:
         for sname, depth, mk in (("constant", 0, lambda: L.scorer.DummyScorer()), ("shipped", 10, lambda: None),
                                  ("random2", 0, lambda: L.scorer.RandomScorer(random.Random(2))))[: 3 if ctx["tier"] == "thorough" else 2]:
             try:
